@@ -141,10 +141,10 @@ def _inline_temps(fn):
                     t = a.targets[0].id
                     if t in params or stores.get(t) != 1 or loads.get(t) != 1:
                         continue
-                    if isinstance(b, ast.Return) and isinstance(b.value, ast.Name) and b.value.id == t and not isinstance(a.value, (ast.Name, ast.Constant)):
+                    if isinstance(b, ast.Return) and isinstance(b.value, ast.Name) and b.value.id == t and not isinstance(a.value, ast.Name):
                         b.value = a.value
-                    elif isinstance(a.value, (ast.Constant, ast.Attribute)):
-                        continue  # obj.attr aliases and named constants are not temporaries of an expression
+                    elif isinstance(a.value, ast.Attribute):
+                        continue  # obj.attr aliases (dm1 = dynmat.dynamical_matrix) are snapshots, not temporaries
                     elif isinstance(b, (ast.Assign, ast.AugAssign, ast.Return, ast.Expr)) and b.value is not None:
                         lm = _leftmost(b.value)
                         if not (isinstance(lm, ast.Name) and lm.id == t):
